@@ -509,8 +509,128 @@ func C09(run *hx.Run) {
 		}(wi)
 	}
 	wg.Wait()
+	c09LiveThenCrash(run, dir)
 	run.Count("scenarios", len(scs))
 	if run.Seen("outcome", "refused-hot-journal") == 0 && run.Seen("outcome", "refused-at-open") == 0 {
 		run.Inconclusive("no crash point left a hot journal: the enumeration did not reach the interesting window")
+	}
+}
+
+// c09LiveThenCrash: the reader's handle is not new to the transaction that dies. It read while the writer was
+// alive (journal on disk, RESERVED or more held: some of these reads succeed, some are refused), the writer is
+// then killed at one of its later operations, and the SAME handle reads again: error, or SQLite's recovered state.
+// Whatever the handle remembered about "a live writer owns that journal" is void once the writer is dead.
+func c09LiveThenCrash(run *hx.Run, dir string) {
+	o := mustOracle(run)
+	if o == nil {
+		return
+	}
+	defer o.Close()
+	type lc struct {
+		jmode, scenario string
+		ps              int
+	}
+	cases := []lc{{"delete", "spill-insert+nosync", 1024}, {"persist", "update-many+nosync", 512}, {"delete", "spill-insert", 1024}, {"truncate", "small-insert+nosync", 4096}}
+	if run.Thorough() {
+		for _, jm := range []string{"delete", "truncate", "persist"} {
+			for _, sc := range []string{"spill-insert+nosync", "update-many+nosync", "two-statements+nosync", "spill-insert", "update-many", "small-insert+nosync", "alter-spill"} {
+				cases = append(cases, lc{jm, sc, []int{512, 1024, 4096}[len(cases)%3]})
+			}
+		}
+	}
+	for ci, c := range cases {
+		for _, after := range []int{2, 9, 30} { // kill at the n-th stop after the journal first looked valid
+			sdir := filepath.Join(dir, fmt.Sprintf("live%d-%d", ci, after))
+			os.MkdirAll(sdir, 0o755)
+			orig := filepath.Join(sdir, "v.sqlite")
+			if err := makeVersionedDB(o, orig, c.ps, 1600); err != nil {
+				run.Inconclusive("live-then-crash db: " + err.Error())
+				return
+			}
+			name := fmt.Sprintf("%s/%s/ps%d/kill-%d-stops-after-journal", c.jmode, c.scenario, c.ps, after)
+			h, err := sqlittle.Open(orig)
+			if err != nil {
+				run.Violation("C09/live-then-crash/open", err.Error(), nil)
+				continue
+			}
+			readVersioned(h)
+			st, err := hx.StartStepper(sdir, orig, c.jmode, c.scenario, "", "step", 1, "")
+			if err != nil {
+				run.Inconclusive("live-then-crash stepper: " + err.Error())
+				h.Close()
+				continue
+			}
+			sinceMagic := -1
+			liveOK, liveRefused := 0, 0
+			killed := false
+			stops := 0
+			for {
+				_, ok := st.Next()
+				if !ok {
+					break
+				}
+				stops++
+				if journalClass(orig+"-journal") == "magic-present" {
+					if sinceMagic < 0 {
+						sinceMagic = 0
+					} else {
+						sinceMagic++
+					}
+					// the handle meets the live transaction
+					v := readVersionedFrom(h, stops)
+					if v.errs["Select/t"] == nil {
+						liveOK++
+					} else {
+						liveRefused++
+					}
+					if sinceMagic >= after {
+						st.KillAtStop()
+						killed = true
+						break
+					}
+				}
+				if stops > 3000 {
+					st.Go()
+					break
+				}
+				st.Release()
+			}
+			st.Wait()
+			st.Close()
+			if !killed {
+				run.Count("live_then_crash_kill_point_not_reached", 1)
+				h.Close()
+				continue
+			}
+			jc := journalClass(orig + "-journal")
+			rec := filepath.Join(sdir, "rec.sqlite")
+			_, integ, err := o.Recover(orig, rec)
+			if err != nil || len(integ) != 1 || integ[0] != "ok" {
+				run.Inconclusive(fmt.Sprintf("%s: SQLite could not recover the pair: %v %v", name, err, integ))
+				h.Close()
+				continue
+			}
+			want, err := sqliteVersioned(o, rec)
+			if err != nil {
+				run.Inconclusive("live-then-crash reference: " + err.Error())
+				h.Close()
+				continue
+			}
+			run.Eval(1)
+			run.Distinct("live-then-crash/" + name)
+			run.See("live_then_crash", fmt.Sprintf("%s/%s: reads during the transaction ok=%v refused=%v, journal left %s", c.jmode, c.scenario, liveOK > 0, liveRefused > 0, jc))
+			for round := 0; round < 2; round++ {
+				v := readVersionedFrom(h, stops+round)
+				for _, op := range verOps {
+					if v.errs[op] != nil {
+						continue
+					}
+					if df := diffRows(want[op], v.ops[op]); df != "" {
+						run.Violation(fmt.Sprintf("C09/unfinished-transaction-read/handle-that-read-during-the-transaction/%s/%s", jc, opKind(op)), fmt.Sprintf("%s: the handle read %d times while the writer was alive (%d admitted, %d refused); the writer was killed; %s on that handle now succeeds but differs from SQLite's post-recovery state: %s", name, liveOK+liveRefused, liveOK, liveRefused, op, df), hx.M{"scenario": name, "journal": jc})
+					}
+				}
+			}
+			h.Close()
+		}
 	}
 }
